@@ -45,8 +45,40 @@ package revolut2
 //@   loop 1 invariant [C06] [C13] @com: forall i int :: {targ("Add", 0, i)} entry(tlen()) <= i && i < tlen() ==> dyn(targ("Add", 0, i), "*assertion.Assertion").Balances[0].Commodity == $range[i - entry(tlen())].Commodity
 //@   loop 1 invariant forall i int :: {targ("Add", 0, i)} entry(tlen()) <= i && i < tlen() ==> live(dyn(targ("Add", 0, i), "*assertion.Assertion")) && live(dyn(targ("Add", 0, i), "*assertion.Assertion").Balances)
 //
-// parseBooking (the per-row function) is NOT under contract: it slices the "Completed Date" column with
-// [:10] before any length check, so the safety obligation of that slice expression cannot discharge for
-// arbitrary records (a statement with a shorter, non-empty completed date panics there); no listed property
-// covers malformed statements of an importer, and the contract language has no way to assume a record shape.
+// One statement row -> exactly one transaction (property C13, the booking clause): a completed row (non-empty
+// "Completed Date") adds exactly ONE directive: a transaction dated with the first ten characters of that
+// column, whose first pair of postings books the parsed "Amount" column on the import account (debited) against
+// the TBD account in the commodity named by the "Currency" column; a non-zero "Fee" adds a second pair between
+// the import account and the fee account; the parsed "Balance" column of the row is remembered under (date,
+// commodity) - also when it is zero. A pending row (empty completed date) adds nothing. Quiet.
+// Well-formedness of the statement (a hypothesis of the property, assumed about what csv.Reader.Read delivers
+// and listed in the evidence): a completed date, when present, has at least the ten characters of a date -
+// the code slices it with [:10] before any check.
+//@ def wfParserR2(p *parser) bool := p != nil && p.reader != nil && p.reader.FieldsPerRecord == 10 && p.registry != nil && p.registry.accounts != nil
+//@     && wfCommodities(p.registry.commodities) && p.registry.accounts.index != p.registry.commodities.index && wfBuilder(p.builder) && validAccount(p.account) && validAccount(p.feeAccount)
+//@     && p.balance != nil
+//
+//@ func (*parser).parseBooking
+//@   requires wfParserR2(p)
+//@   modifies *
+//@   panics
+//@   quiet
+//@   input Read: result.1 == nil ==> len(result.0) == 10 && (len(result.0[3]) == 0 || len(result.0[3]) >= 10)
+//@   callback Read=0
+//@   callback Parse=0
+//@   callback Get=0
+//@   callback NewFromString=0
+//@   callback Add=0
+//@   ensures [C13] @pending: result == nil && tlen() != old(tlen()) + 7 ==> tlen() == old(tlen()) + 1
+//@   ensures [C13] @row: result == nil && tlen() == old(tlen()) + 7 ==> tkind(old(tlen()) + 5) == kind("Add")
+//@        && targ("Get", 0, old(tlen()) + 2) == tres("Read", old(tlen()))[7] && targ("NewFromString", 0, old(tlen()) + 3) == tres("Read", old(tlen()))[5]
+//@        && targ("NewFromString", 0, old(tlen()) + 4) == tres("Read", old(tlen()))[6] && targ("NewFromString", 0, old(tlen()) + 6) == tres("Read", old(tlen()))[9]
+//@   ensures [C13] @booking: result == nil && tlen() == old(tlen()) + 7 ==> typeIs(targ("Add", 0, old(tlen()) + 5), "*transaction.Transaction")
+//@        && dyn(targ("Add", 0, old(tlen()) + 5), "*transaction.Transaction").Date == tres("Parse", old(tlen()) + 1)
+//@        && len(dyn(targ("Add", 0, old(tlen()) + 5), "*transaction.Transaction").Postings) == (tres("NewFromString", old(tlen()) + 4) == 0.0 ? 2 : 4)
+//@        && built(dyn(targ("Add", 0, old(tlen()) + 5), "*transaction.Transaction").Postings[0], dyn(targ("Add", 0, old(tlen()) + 5), "*transaction.Transaction").Postings[1],
+//@             posting.Builder{Debit: p.account, Credit: dyn(targ("Add", 0, old(tlen()) + 5), "*transaction.Transaction").Postings[1].Account == p.account ? dyn(targ("Add", 0, old(tlen()) + 5), "*transaction.Transaction").Postings[0].Account : dyn(targ("Add", 0, old(tlen()) + 5), "*transaction.Transaction").Postings[1].Account,
+//@                 Commodity: tres("Get", old(tlen()) + 2), Quantity: tres("NewFromString", old(tlen()) + 3)})
+//@   ensures [C13] @balance: result == nil && tlen() == old(tlen()) + 7 ==> (amounts.Key{Date: tres("Parse", old(tlen()) + 1), Commodity: tres("Get", old(tlen()) + 2)} in p.balance)
+//@        && p.balance[amounts.Key{Date: tres("Parse", old(tlen()) + 1), Commodity: tres("Get", old(tlen()) + 2)}] == tres("NewFromString", old(tlen()) + 6)
 
